@@ -950,6 +950,190 @@ def r2_readback(prog, sl, rep, types):
                   '%s does not read back what it writes: %s' % (t.split('::')[-1], '; '.join(bad)))
 
 
+# ---- R2: what a skip predicate is true for / what a Deserialize default produces -------------------------------
+# Both sides of the pairing are reduced to a *value class*:
+#   ('empty',)                  a collection / string without elements
+#   ('bool', b)                 the boolean b
+#   ('variant', enum, {V..})    any value of one of the listed variants (for a default: the unit variant V itself)
+# The std predicates / constructors are axioms; a workspace function (private helper named in the serde attribute,
+# hand-written or derived Default impl, `default = "path"` function) is classified by the value it returns, in terms of
+# its parameter — so `std::ops::Not::not`, `fn is_false(b: &bool) -> bool { !*b }`, `*b == false` and
+# `if *b { false } else { true }` are one predicate, and `matches!(self, Self::App)` / an exhaustive `match` another.
+_EMPTY_TY = _re.compile(r'^(&(mut )?)?(std::vec::Vec|std::string::String|std::collections::\w+(::\w+)*|toml::map::Map|indexmap::(map::)?IndexMap|\[)')
+_STD = ('std::', 'core::', 'alloc::', 'toml::', 'indexmap::', '<std::', '<core::', '<alloc::', '<[', '<bool', '<toml::', '<indexmap::')
+
+
+def _deref(v):
+    """v without conversions and without the reference / copy plumbing a `&T` predicate argument goes through"""
+    while True:
+        v = peel(v)
+        if v[0] in ('ref', 'deref', 'copy') and len(v) > 1 and isinstance(v[1], tuple):
+            v = v[1]
+        else:
+            return v
+
+
+def _is_p0(v, fn):
+    v = _deref(v)
+    return v[0] == 'param' and v[1] == fn.path and v[2] == 0
+
+
+def _ty_class(ty):
+    """the class `Default::default()` produces for a field of type ty"""
+    ty = (ty or '').strip()
+    if ty == 'bool':
+        return ('bool', False)
+    if _EMPTY_TY.match(ty) and not ty.startswith('['):
+        return ('empty',)
+    return None
+
+
+def _all_variants(prog, enum):
+    a = prog.adts.get(enum)
+    return {v['name'] for v in a['variants']} if a and a.get('variants') else None
+
+
+def _const_bool(v):
+    v = strip(v)
+    return v[1] if v[0] == 'const' and isinstance(v[1], bool) else None
+
+
+def _neg(cls, prog=None):
+    """the class the negated predicate is true for (the complement within bool / within the enum's variants)"""
+    if cls and cls[0] == 'bool':
+        return ('bool', not cls[1])
+    if cls and cls[0] == 'variant' and prog is not None and _all_variants(prog, cls[1]):
+        return ('variant', cls[1], frozenset(_all_variants(prog, cls[1]) - cls[2]))
+    return None
+
+
+def truth_class(prog, sl, name, _depth=0):
+    """the class of values the one-argument predicate `name` is true for (None: not decided)"""
+    if not name or _depth > 4:
+        return None
+    f = prog.fns.get(name)
+    if f is None:
+        last = name.split('::')[-1]
+        if name.startswith(_STD) and last == 'is_empty':
+            return ('empty',)
+        if name in ('std::ops::Not::not', '<&bool as std::ops::Not>::not', '<bool as std::ops::Not>::not'):
+            return ('bool', False)
+        return None
+    if f.argc != 1 or (f.ret or 'bool') != 'bool':
+        return None
+    return _truth_of(prog, sl, f, sl.inline_deep(sl.local(f, 0)), _depth)
+
+
+def _truth_of(prog, sl, f, v, depth):
+    v = strip(v)
+    if _is_p0(v, f):
+        return ('bool', True)
+    if v[0] == 'un' and v[1] == 'Not':
+        return _neg(_truth_of(prog, sl, f, v[2], depth), prog)
+    if v[0] == 'bin' and v[1] in ('Eq', 'Ne'):
+        for a, b in ((v[2], v[3]), (v[3], v[2])):
+            cb = _const_bool(_deref(b))
+            if cb is not None:
+                inner = _truth_of(prog, sl, f, a, depth)
+                if inner and inner[0] == 'bool':
+                    same = (v[1] == 'Eq') == cb
+                    return inner if same else _neg(inner)
+            a0, b0 = _deref(a), _deref(b)
+            if v[1] == 'Eq' and b0 == ('const', 0) and a0[0] == 'call' and a0[1].split('::')[-1] == 'len' and a0[1].startswith(_STD) \
+                    and len(a0[2]) == 1 and _is_p0(a0[2][0], f):
+                return ('empty',)
+        return None
+    if v[0] == 'call' and len(v[2]) == 1 and _is_p0(v[2][0], f):
+        return truth_class(prog, sl, v[1], depth + 1)
+    if v[0] == 'call' and v[1].endswith('::eq') and v[1].startswith(_STD) and len(v[2]) == 2:
+        # `*b == false` through PartialEq
+        for a, b in ((v[2][0], v[2][1]), (v[2][1], v[2][0])):
+            cb = _const_bool(_deref(b))
+            if cb is not None and _is_p0(a, f):
+                return ('bool', cb)
+        return None
+    if v[0] == 'select' and _is_p0(v[1], f):
+        allv = _all_variants(prog, v[2])
+        listed = [n for names, _ in v[3] for n in names]
+        if allv is None or set(listed) != allv or len(listed) != len(set(listed)):
+            return None
+        trues = set()
+        for names, val in v[3]:
+            cb = _const_bool(val)
+            if cb is None:
+                return None
+            if cb:
+                trues |= set(names)
+        return ('variant', v[2], frozenset(trues))
+    if v[0] == 'phi':
+        return _truth_by_arms(prog, sl, f)
+    return None
+
+
+def _truth_by_arms(prog, sl, f):
+    """`if *b { false } else { true }` / `match *b { true => false, false => true }`: every definition of the result is
+    a boolean literal under one decision on the parameter itself"""
+    from .lib.tables import arm_defs
+    by = {}
+    for bi, v, conds in arm_defs(f, 0, sl):
+        if bi not in f.reachable(0):
+            continue
+        cb = _const_bool(v)
+        cds = [c for c in conds if c.kind in ('bool', 'int')]
+        if cb is None or len(cds) != 1 or len(conds) != 1:
+            return None
+        c = cds[0]
+        if not _is_p0(c.value, f):
+            return None
+        oc = c.outcome
+        if c.kind == 'int':
+            oc = {0: False, 1: True}.get(oc if not isinstance(oc, (set, frozenset)) else (next(iter(oc)) if len(oc) == 1 else None))
+        if not isinstance(oc, bool) or by.get(oc, cb) != cb:
+            return None
+        by[oc] = cb
+    if set(by) != {True, False} or by[True] == by[False]:
+        return None
+    return ('bool', True) if by[True] else ('bool', False)
+
+
+def default_class(prog, sl, name, ty, _depth=0):
+    """the class of the value the Deserialize default callee `name` produces for a field of type ty"""
+    if not name or name == 'None' or _depth > 4:
+        return None
+    f = prog.fns.get(name)
+    if f is None:
+        if name == 'std::default::Default::default':
+            return _ty_class(ty)
+        m = _re.match(r'^<(.+) as std::default::Default>::default$', name)
+        if m:
+            return _ty_class(m.group(1)) if m.group(1) not in ('T',) else _ty_class(ty)
+        if name.startswith(_STD) and name.split('::')[-1] == 'new' and _EMPTY_TY.match(name.replace('::<', '<')):
+            return ('empty',)
+        return None
+    if f.argc != 0:
+        return None
+    v = peel(sl.inline_deep(sl.local(f, 0)))
+    cb = _const_bool(v)
+    if cb is not None:
+        return ('bool', cb)
+    if v[0] == 'agg' and v[2] and not v[3] and _all_variants(prog, v[1]) and v[2] in _all_variants(prog, v[1]) and prog.adts[v[1]].get('kind') == 'enum':
+        return ('variant', v[1], frozenset({v[2]}))
+    if v[0] == 'call':
+        # another constructor: a workspace one is classified in turn, a std one by name / by this function's return type
+        return default_class(prog, sl, v[1], f.ret or ty, _depth + 1) if not v[2] else None
+    if is_empty_value(v):
+        return ('empty',)
+    return None
+
+
+def class_str(c):
+    if c is None:
+        return 'undecided'
+    if c[0] == 'variant':
+        return '/'.join(sorted(c[2])) or 'nothing'
+    return 'empty' if c[0] == 'empty' else str(c[1]).lower()
+
+
 # ---- R5: exec.d payload ----------------------------------------------------------------------------------------
 def execd_payload(prog, sl, rep, fn):
     """what reaches the fd-3 file: on every path exactly one complete write (write_all / write!) of
